@@ -554,6 +554,57 @@ def r19_13(ctx, rep):
     no_stale_loop_variables(ctx, rep, "R19.13", API, "the CasADi API")
 
 
+@SPEC.rule(
+    "R19.14",
+    "every model has cache files of its own: the name of the .pymoca_cache file (save_model and load_model) and of each generated library "
+    "contains the model's name as it was given — joined, concatenated or formatted in, never passed through a function, sliced or split "
+    "(`Lib.Station` and `Other.Station` in one folder must not meet in `Station.pymoca_cache`)",
+)
+def r19_14(ctx, rep):
+    from ..pyutil import inlined
+    R = "R19.14"
+    n = 0
+    for fname in ("save_model", "load_model"):
+        fn = api_fn(ctx, fname, R)
+        site = API + ":" + fname
+        mn = fn.args.args[1].arg if len(fn.args.args) > 1 else None
+        if mn is None or "name" not in mn:
+            raise MechanismMissing(R, "%s has no model-name parameter in second position" % fname)
+        exprs = []
+        for st in walk_local(fn):
+            if isinstance(st, ast.Assign) and isinstance(st.targets[0], ast.Name) and ".pymoca_cache" in norm(inlined(st.value, fn.body, keep={mn})):
+                exprs.append(("cache file", inlined(st.value, fn.body, keep={mn})))
+        for c in calls(fn):
+            if (call_name(c) or "").endswith("_codegen_model") and len(c.args) >= 3:
+                exprs.append(("library", inlined(c.args[2], fn.body, keep={mn})))
+        if fname == "load_model" and not exprs:
+            raise MechanismMissing(R, "the cache file name is not built in load_model")
+        for what, e in exprs:
+            n += 1
+            parents = {}
+            for p_ in ast.walk(e):
+                for ch in ast.iter_child_nodes(p_):
+                    parents[id(ch)] = p_
+            occ = [x for x in ast.walk(e) if isinstance(x, ast.Name) and x.id == mn]
+            bad = []
+            for x in occ:
+                par = parents.get(id(x))
+                ok = isinstance(par, ast.BinOp) and isinstance(par.op, ast.Add)
+                ok = ok or isinstance(par, ast.FormattedValue)
+                ok = ok or (isinstance(par, ast.Call) and x in par.args and ((call_name(par) or "").endswith("path.join")
+                                                                             or (isinstance(par.func, ast.Attribute) and par.func.attr == "format")))
+                ok = ok or (isinstance(par, ast.keyword) and isinstance(parents.get(id(par)), ast.Call) and isinstance(parents[id(par)].func, ast.Attribute)
+                            and parents[id(par)].func.attr == "format")
+                ok = ok or (isinstance(par, ast.BinOp) and isinstance(par.op, ast.Mod)) or (isinstance(par, ast.Tuple) and isinstance(parents.get(id(par)), ast.BinOp))
+                if not ok:
+                    bad.append(norm(par)[:60] if par is not None else norm(x))
+            rep.ob(R, site, "%s name `%s` carries the model's name unchanged" % (what, norm(e)[:50]), bool(occ) and not bad,
+                   "the name is built from %s: two models whose names differ only in what that drops share one %s" % (
+                       ("`%s`" % bad[0]) if bad else "something other than the model's name", what))
+    if n < 3:
+        raise MechanismMissing(R, "fewer than 3 file names built from the model's name found in save_model / load_model")
+
+
 # -- seeded variants ---------------------------------------------------------
 from ._mut import delete_stmt_where, replace_in_func  # noqa: E402
 
